@@ -8,9 +8,10 @@
    Both loops are "for cond" loops: gen_QuantileCI takes fuel.  The greedy loop is tied to the
    model's own fuelled [loop] iteration for iteration (go_while needs one unit more: the model
    tests the guard once more at fuel 0).  The widening loop of the normal branch
-   (for cdf(l,r) < confidence && ... { l--; r++ }) is NOT in the model, which assumes exact
-   quantiles (C11_normal_conf_ge_c: the band already has the mass); the tie of that branch carries
-   this as the hypothesis [no_widen]. *)
+   (for cdf(l,r) < confidence && ... { l--; r++ }) is in the model too ([widen], Model/QuantileCI.v); the tie
+   of that branch is stated for the case in which neither loop runs (hypothesis: the rounded band already
+   has the mass or covers everything — what C11_normal_no_widening proves for exact quantiles); the case
+   with widenings is tied by the correspondence only (generator class (b7), tag 32768). *)
 From Coq Require Import ZArith NArith QArith Qround Qabs List Bool Lia Lqa.
 From MM Require Import Base.Num Base.GoSem Model.QuantileCI Proofs.TicksLinear.
 From MMGen Require Import Gen_stats_types Gen_stats_quantileci.
@@ -199,6 +200,14 @@ Proof.
         replace (r <? n + 1)%Z with false by (symmetry; apply Z.ltb_ge; lia). apply andb_false_r. }
   rewrite (ssub1 r) by exact Hr. unfold qci_normal. cbv zeta. fold l0. fold r.
   change (if (r <=? l0)%Z then (r - 1)%Z else l0) with l.
+  (* the model's own widening loop does not run either *)
+  assert (Hwm : widen_more (band_of ncdff norm) n c l r = false).
+  { unfold widen_more. destruct Hnw as [H|[H1 H2]].
+    - apply Qltb_niff in H. rewrite H. reflexivity.
+    - replace (0 <? l)%Z with false by (symmetry; apply Z.ltb_ge; lia).
+      replace (r <? n + 1)%Z with false by (symmetry; apply Z.ltb_ge; lia). apply andb_false_r. }
+  replace (widen (band_of ncdff norm) (widen_fuel n l r) n c l r) with (l, r)
+    by (destruct (widen_fuel n l r); cbn [widen]; rewrite ?Hwm; reflexivity).
   change (Qle_bool c (band_of ncdff norm l (r - 1))) with (Qleb c (band_of ncdff norm l (r - 1))).
   match goal with |- context [Qleb c ?a] => change a with (band_of ncdff norm l (r - 1)) end.
   repeat match goal with |- context [ncdff norm (go_i2f r - (1 # 2)) - ncdff norm (go_i2f l - (1 # 2))] =>
